@@ -816,4 +816,283 @@ example :
       ∧ valueOf (.nconc (.cell 1) (.cell 2)) [1, 2] [5] = .ok [1, 2, 5] := by
   refine ⟨by rfl, by rfl, by rfl, by rfl⟩
 
+/-! ## results: fresh cells, except the tail sharing the language prescribes -/
+
+/-- **result independence.** The list returned by `list butlast subseq copy-list reverse mapcar` is
+    made of fresh cells only, so it shares no cell with any list that existed before the call. -/
+theorem fresh_result_independent {h h' : Heap} {op : Op} {res : Ref}
+    (hf : op.freshResult = true) (hr : run h op = .ok (h', res)) :
+    ∃ n as, chain h' n res = some as ∧ (∀ a ∈ as, h.length ≤ a) ∧
+      ∀ {m : Nat} {r : Ref} {bs : List Nat}, chain h m r = some bs → ∀ a ∈ as, a ∉ bs := by
+  have key : ∀ vs, allocList h vs .nil = (h', res) →
+      ∃ n as, chain h' n res = some as ∧ (∀ a ∈ as, h.length ≤ a) ∧
+        ∀ {m : Nat} {r : Ref} {bs : List Nat}, chain h m r = some bs → ∀ a ∈ as, a ∉ bs := by
+    intro vs he
+    obtain ⟨as, hc, hfr⟩ := allocList_nil_fresh h vs
+    rw [he] at hc
+    refine ⟨vs.length, as, hc, hfr, ?_⟩
+    intro m r bs hb a ha hab
+    have := chain_lt hb a hab
+    have := hfr a ha
+    omega
+  cases op with
+  | lit vs => simp [run] at hr; exact key vs hr
+  | butlast k x =>
+    unfold run at hr
+    cases hcx : chainOf h x with
+    | error e => simp [hcx, bind, Except.bind] at hr
+    | ok as => simp [hcx, bind, Except.bind] at hr; exact key _ hr
+  | subseq s e x =>
+    unfold run at hr
+    cases hcx : chainOf h x with
+    | error e => simp [hcx, bind, Except.bind] at hr
+    | ok as =>
+      cases hv : vSubseq s e (carsOf h as) with
+      | error e => simp [hcx, hv, bind, Except.bind] at hr
+      | ok vs => simp [hcx, hv, bind, Except.bind] at hr; exact key _ hr
+  | copyList x =>
+    unfold run at hr
+    cases hcx : chainOf h x with
+    | error e => simp [hcx, bind, Except.bind] at hr
+    | ok as => simp [hcx, bind, Except.bind] at hr; exact key _ hr
+  | reverse x =>
+    unfold run at hr
+    cases hcx : chainOf h x with
+    | error e => simp [hcx, bind, Except.bind] at hr
+    | ok as => simp [hcx, bind, Except.bind] at hr; exact key _ hr
+  | mapcar f x =>
+    unfold run at hr
+    cases hcx : chainOf h x with
+    | error e => simp [hcx, bind, Except.bind] at hr
+    | ok as => simp [hcx, bind, Except.bind] at hr; exact key _ hr
+  | alias x => simp [Op.freshResult] at hf
+  | cons v x => simp [Op.freshResult] at hf
+  | listStar v w x => simp [Op.freshResult] at hf
+  | append x y => simp [Op.freshResult] at hf
+  | nthcdr n x => simp [Op.freshResult] at hf
+  | last n x => simp [Op.freshResult] at hf
+  | member v x => simp [Op.freshResult] at hf
+  | remove p x => simp [Op.freshResult] at hf
+  | rplaca x v => simp [Op.freshResult] at hf
+  | setNth n x v => simp [Op.freshResult] at hf
+  | rplacd x y => simp [Op.freshResult] at hf
+  | nconc x y => simp [Op.freshResult] at hf
+  | add x vs => simp [Op.freshResult] at hf
+  | nreverse x => simp [Op.freshResult] at hf
+  | sort x => simp [Op.freshResult] at hf
+  | delete p x => simp [Op.freshResult] at hf
+
+/-- `cdr rest nthcdr pop last member (setq d a)` allocate nothing and return a tail of their
+    argument (the sharing the language prescribes). -/
+theorem tail_result_shares {h h' : Heap} {op : Op} {res : Ref} {x : Ref}
+    (ht : op.tailResult = true) (hx : op.listArgs = [x]) (hr : run h op = .ok (h', res))
+    {as : List Nat} (hc : chain h (stdFuel h) x = some as) :
+    h' = h ∧ ∃ k, chain h (stdFuel h) res = some (as.drop k) := by
+  have hco := chainOf_ok.mpr hc
+  cases op with
+  | alias y =>
+    simp [Op.listArgs] at hx; subst hx
+    simp [run] at hr
+    exact ⟨hr.1.symm, 0, by rw [← hr.2]; simpa using hc⟩
+  | nthcdr n y =>
+    simp [Op.listArgs] at hx; subst hx
+    unfold run at hr
+    simp [hco, bind, Except.bind] at hr
+    exact ⟨hr.1.symm, n, by rw [← hr.2]; exact chain_drop n hc⟩
+  | last n y =>
+    simp [Op.listArgs] at hx; subst hx
+    unfold run at hr
+    simp [hco, bind, Except.bind] at hr
+    exact ⟨hr.1.symm, _, by rw [← hr.2]; exact chain_drop _ hc⟩
+  | member v y =>
+    simp [Op.listArgs] at hx; subst hx
+    unfold run at hr
+    simp [hco, bind, Except.bind] at hr
+    exact ⟨hr.1.symm, _, by rw [← hr.2]; exact chain_drop _ hc⟩
+  | lit vs => simp [Op.tailResult] at ht
+  | cons v x => simp [Op.tailResult] at ht
+  | listStar v w x => simp [Op.tailResult] at ht
+  | append x y => simp [Op.tailResult] at ht
+  | butlast n x => simp [Op.tailResult] at ht
+  | subseq s e x => simp [Op.tailResult] at ht
+  | copyList x => simp [Op.tailResult] at ht
+  | reverse x => simp [Op.tailResult] at ht
+  | remove p x => simp [Op.tailResult] at ht
+  | mapcar f x => simp [Op.tailResult] at ht
+  | rplaca x v => simp [Op.tailResult] at ht
+  | setNth n x v => simp [Op.tailResult] at ht
+  | rplacd x y => simp [Op.tailResult] at ht
+  | nconc x y => simp [Op.tailResult] at ht
+  | add x vs => simp [Op.tailResult] at ht
+  | nreverse x => simp [Op.tailResult] at ht
+  | sort x => simp [Op.tailResult] at ht
+  | delete p x => simp [Op.tailResult] at ht
+
+/-- `cons push list* append`: the result is fresh cells followed by exactly the cells of the last
+    argument (the only sharing the language prescribes). -/
+theorem cons_append_share_only_last_arg {h : Heap} {n : Nat} {y : Ref} {bs : List Nat}
+    (hy : chain h n y = some bs) :
+    (∀ v, ∃ fresh, chain (h ++ [⟨v, y⟩]) (n + 1) (.cell h.length) = some (fresh ++ bs) ∧ ∀ a ∈ fresh, h.length ≤ a) ∧
+    (∀ vs, ∃ fresh, chain (allocList h vs y).1 (n + vs.length) (allocList h vs y).2 = some (fresh ++ bs)
+        ∧ ∀ a ∈ fresh, h.length ≤ a) := by
+  constructor
+  · intro v
+    obtain ⟨fresh, hc, _, hf, _⟩ := allocList_spec hy [v]
+    exact ⟨fresh, by simpa [allocList] using hc, hf⟩
+  · intro vs
+    obtain ⟨fresh, hc, _, hf, _⟩ := allocList_spec hy vs
+    exact ⟨fresh, hc, hf⟩
+
+/-- `cons push list* append` at the level of `run`: the result consists of fresh cells followed by
+    exactly the cells of the last list argument. -/
+theorem ext_result_shares_only_last_arg {h h' : Heap} {op : Op} {res y : Ref} {n : Nat} {bs : List Nat}
+    (hx : op.extending = true) (hnd : op.destructive = false) (hr : run h op = .ok (h', res))
+    (hl : op.listArgs.getLast? = some y) (hy : chain h n y = some bs) :
+    ∃ m fresh, chain h' m res = some (fresh ++ bs) ∧ ∀ a ∈ fresh, h.length ≤ a := by
+  cases op with
+  | cons v x =>
+    simp [Op.listArgs] at hl; subst hl
+    simp [run] at hr
+    obtain ⟨fresh, hc, hf⟩ := (cons_append_share_only_last_arg hy).1 v
+    exact ⟨n + 1, fresh, by rw [← hr.1, ← hr.2]; exact hc, hf⟩
+  | listStar v w x =>
+    simp [Op.listArgs] at hl; subst hl
+    simp only [run] at hr
+    simp at hr
+    obtain ⟨fresh, hc, hf⟩ := (cons_append_share_only_last_arg hy).2 [v, w]
+    rw [hr] at hc
+    exact ⟨_, fresh, hc, hf⟩
+  | append x y' =>
+    simp [Op.listArgs] at hl; subst hl
+    unfold run at hr
+    cases hcx : chainOf h x with
+    | error e => simp [hcx, bind, Except.bind] at hr
+    | ok as =>
+      cases hcy : chainOf h y' with
+      | error e => simp [hcx, hcy, bind, Except.bind] at hr
+      | ok bs' =>
+        simp [hcx, hcy, bind, Except.bind] at hr
+        obtain ⟨fresh, hc, hf⟩ := (cons_append_share_only_last_arg hy).2 (carsOf h as)
+        rw [hr] at hc
+        exact ⟨_, fresh, hc, hf⟩
+  | lit vs => simp [Op.extending] at hx
+  | alias x => simp [Op.extending] at hx
+  | nthcdr n x => simp [Op.extending] at hx
+  | last n x => simp [Op.extending] at hx
+  | member v x => simp [Op.extending] at hx
+  | butlast n x => simp [Op.extending] at hx
+  | subseq s e x => simp [Op.extending] at hx
+  | copyList x => simp [Op.extending] at hx
+  | reverse x => simp [Op.extending] at hx
+  | remove p x => simp [Op.extending] at hx
+  | mapcar f x => simp [Op.extending] at hx
+  | rplaca x v => simp [Op.extending] at hx
+  | setNth n x v => simp [Op.extending] at hx
+  | rplacd x y => simp [Op.extending] at hx
+  | nconc x y => simp [Op.destructive] at hnd
+  | add x vs => simp [Op.destructive] at hnd
+  | nreverse x => simp [Op.extending] at hx
+  | sort x => simp [Op.extending] at hx
+  | delete p x => simp [Op.extending] at hx
+
+/-! ## value laws of (B) -/
+
+theorem append_assoc (x y : Ref) (xs ys zs : List Val) :
+    (valueOf (.append x y) xs ys).bind (fun l => valueOf (.append x y) l zs)
+      = (valueOf (.append x y) ys zs).bind (fun r => valueOf (.append x y) xs r) := by
+  simp [valueOf, Except.bind, List.append_assoc]
+
+theorem append_nil_right (x y : Ref) (xs : List Val) : valueOf (.append x y) xs [] = .ok xs := by
+  simp [valueOf]
+
+theorem reverse_involutive (x : Ref) (xs : List Val) :
+    (valueOf (.reverse x) xs []).bind (fun l => valueOf (.reverse x) l []) = .ok xs := by
+  simp [valueOf, Except.bind]
+
+theorem nreverse_eq_reverse (x : Ref) (xs : List Val) : valueOf (.nreverse x) xs [] = valueOf (.reverse x) xs [] := rfl
+
+theorem delete_eq_remove (p : Pred) (x : Ref) (xs : List Val) :
+    valueOf (.delete p x) xs [] = valueOf (.remove p x) xs [] := rfl
+
+theorem nconc_eq_append (x y : Ref) (xs ys : List Val) : valueOf (.nconc x y) xs ys = valueOf (.append x y) xs ys := rfl
+
+theorem length_butlast (n : Nat) (xs : List Val) : (vButlast n xs).length = xs.length - n := by
+  simp [vButlast, List.length_take]
+
+theorem length_last (n : Nat) (xs : List Val) : (vLast n xs).length = min n xs.length := by
+  simp [vLast, List.length_drop]; omega
+
+/-- `(append (butlast l n) (last l n)) = l` -/
+theorem butlast_append_last (n : Nat) (xs : List Val) : vButlast n xs ++ vLast n xs = xs := by
+  simp [vButlast, vLast, List.take_append_drop]
+
+theorem nthcdr_length (n : Nat) (xs : List Val) : (vNthcdr n xs).length = xs.length - n := by
+  simp [vNthcdr]
+
+/-- `subseq` is `take ∘ drop`, defined exactly when `start ≤ end ≤ length` -/
+theorem subseq_eq_take_drop (s e : Nat) (xs : List Val) :
+    (s ≤ e ∧ e ≤ xs.length → vSubseq s (some e) xs = .ok ((xs.drop s).take (e - s)))
+    ∧ (¬(s ≤ e ∧ e ≤ xs.length) → vSubseq s (some e) xs = .error .range) := by
+  constructor <;> intro hb <;> simp [vSubseq, hb]
+
+theorem subseq_length {s e : Nat} {xs l : List Val} (h : vSubseq s (some e) xs = .ok l) : l.length = e - s := by
+  unfold vSubseq at h
+  simp only [Option.getD_some] at h
+  split at h
+  · rename_i hb
+    injection h with h; subst h
+    simp [List.length_take, List.length_drop]; omega
+  · cases h
+
+theorem subseq_whole (xs : List Val) : vSubseq 0 none xs = .ok xs := by
+  simp [vSubseq]
+
+theorem subseq_to_end (s : Nat) (xs : List Val) (h : s ≤ xs.length) : vSubseq s none xs = .ok (vNthcdr s xs) := by
+  simp [vSubseq, h, vNthcdr, List.take_of_length_le]
+
+/-- `member` returns a tail of its argument that starts with the item, or nil when the item is absent -/
+theorem member_suffix (v : Val) (xs : List Val) : vMember v xs <:+ xs := by
+  unfold vMember; exact List.dropWhile_suffix _
+
+theorem member_head (v : Val) (xs : List Val) : (vMember v xs).head? = none ∨ (vMember v xs).head? = some v := by
+  unfold vMember
+  induction xs with
+  | nil => simp
+  | cons x xs ih =>
+    by_cases hx : x = v
+    · subst hx; simp [List.dropWhile_cons]
+    · simpa [List.dropWhile_cons, hx] using ih
+
+theorem member_nil_iff (v : Val) (xs : List Val) : vMember v xs = [] ↔ v ∉ xs := by
+  unfold vMember
+  induction xs with
+  | nil => simp
+  | cons x xs ih =>
+    by_cases hx : x = v
+    · subst hx; simp [List.dropWhile_cons]
+    · have : ¬ v = x := fun e => hx e.symm
+      simp [List.dropWhile_cons, hx, this, ih]
+
+/-- `remove`/`delete` keep exactly the elements that do not satisfy the test, in order -/
+theorem remove_mem (p : Pred) (xs : List Val) (v : Val) : v ∈ vRemove p xs ↔ v ∈ xs ∧ p.test v = false := by
+  simp [vRemove, List.mem_filter]
+
+theorem remove_sublist (p : Pred) (xs : List Val) : (vRemove p xs).Sublist xs := by
+  unfold vRemove; exact List.filter_sublist
+
+theorem remove_idempotent (p : Pred) (xs : List Val) : vRemove p (vRemove p xs) = vRemove p xs := by
+  simp [vRemove, List.filter_filter]
+
+theorem mapcar_length (f : Fn) (xs : List Val) : (vMapcar f xs).length = xs.length := by simp [vMapcar]
+
+/-- `sort` returns an ordered permutation of its argument -/
+theorem sort_sorted_perm (xs : List Val) : (vSort xs).Pairwise (· ≤ ·) ∧ (vSort xs).Perm xs := by
+  induction xs with
+  | nil => simp [vSort]
+  | cons x xs ih =>
+    have e : vSort (x :: xs) = insertSorted x (vSort xs) := rfl
+    rw [e]
+    exact ⟨insertSorted_sorted x ih.1, (insertSorted_perm x _).trans (List.Perm.cons x ih.2)⟩
+
+
 end SlipVerif.ListHeap
